@@ -46,7 +46,11 @@ if _HAS_JAX:
 
                 def _jvp(fun, primals, tangents):
                     func = fun.call_wrapped if hasattr(fun, 'call_wrapped') else fun
-                    return _public_jvp(func, primals, tangents)
+                    # with a single dynamic argument _get_tangents returns a bare array, but the
+                    # public jax.jvp requires tangents with the same (tuple) structure as primals
+                    if not isinstance(tangents, (tuple, list)):
+                        tangents = (tangents,)
+                    return _public_jvp(func, tuple(primals), tuple(tangents))
 
                 def _vjp(fun, *primals):
                     func = fun.call_wrapped if hasattr(fun, 'call_wrapped') else fun
